@@ -528,6 +528,17 @@ func (m *MonC04) OnEnd(w *World) []Violation {
 	return append(vs, m.viols...)
 }
 
+// CheckStalled runs at the quiescent end of the history, before the end-state
+// phase: with nothing outstanding no subscription may still be waiting for an
+// access verdict. A resource whose direct subscriptions a failed re-check took
+// away but which the client keeps below a parent goes on receiving events.
+func (m *MonC06) CheckStalled(w *World) {
+	if st := stalledSubscriptions(w); len(st) > 0 {
+		m.viols = append(m.viols, Violation{Property: "C06", Class: "subscription_stalled", Step: w.step, Conn: -1, T: w.now(),
+			Message: "nothing is outstanding, yet subscriptions still hold events back waiting for an access verdict: " + trunc(strings.Join(st, ", "), 300)})
+	}
+}
+
 // ---------------------------------------------------------------------------
 // C05: call gating and token currency
 
